@@ -33,6 +33,16 @@ SEEDS = {
 }
 
 
+def checks_for(seed):
+    """the checks to run against a seed: SEEDS, else seeded/<seed>/checks.txt (space separated), else its own property"""
+    if seed in SEEDS:
+        return SEEDS[seed]
+    p = os.path.join(ROOT, "seeded", seed, "checks.txt")
+    if os.path.exists(p):
+        return open(p).read().split()
+    return [seed[:3]]
+
+
 def sh(cmd, **kw):
     p = subprocess.run(cmd, stdout=subprocess.PIPE, stderr=subprocess.STDOUT, text=True, **kw)
     return p.returncode, p.stdout
@@ -44,7 +54,7 @@ def clean():
 
 
 def main():
-    seeds = sys.argv[1:] or sorted(SEEDS)
+    seeds = sys.argv[1:] or sorted(d for d in os.listdir(os.path.join(ROOT, "seeded")) if os.path.isdir(os.path.join(ROOT, "seeded", d)))
     rc, out = sh(["git", "-C", REPO, "diff", "--quiet"])
     if rc != 0:
         print("refusing: /repo has local changes")
@@ -58,7 +68,7 @@ def main():
             if rc != 0:
                 print("%s: patch does not apply: %s" % (seed, out.strip()))
                 continue
-            for chk in SEEDS[seed]:
+            for chk in checks_for(seed):
                 rc, out = sh([os.path.join(ROOT, "check"), chk], cwd=ROOT)
                 viol = [l for l in out.splitlines() if l.startswith("VIOLATION")]
                 broken = [l[:300] for l in out.splitlines() if l.startswith("broken ")]
@@ -95,7 +105,7 @@ def main():
         json.dump({
             "seed": seed,
             "property": seed[:3],
-            "round": 2 if "-r2" in seed else 1,
+            "round": 3 if "-r3" in seed else (2 if "-r2" in seed else 1),
             "summary": meta.get("summary", ""),
             "needs_to_manifest": meta.get("needs", ""),
             "files": meta.get("files", []),
